@@ -804,6 +804,9 @@ def build(reg):
     reg.set_class_home("PartialModelObj", "schema/partial.py", "PartialModel")
     vfp = ValFromPartial()
     reg.add(vfp)  # (its recursive call is resolved through the registry; from_partial keeps its own binding for it)
+    from . import oneliners, schemachecks
+
+    specs = specs + oneliners.add_oneliners(reg, props=("C14",)) + [schemachecks.CheckAllowedTypes()]
     specs = specs + [NestedPartialBody(), vfp]  # _nested_partial: body verified on its own (callers keep the binding above)
     return {
         "verify": specs,
